@@ -80,7 +80,7 @@ PROPS = {
     },
     "C06": {
         "title": "Over the network SET/GET/DEL answer exactly as the map model, in order",
-        "rules": [k2s.p11_command_application, k2s.p12_handler_loop, k4.v2_parse_frame, k4.v6_write_frame_flushes, k3.s9_command_table, k2.p6b_pool_filled, k2.p3_publish_after_append, k2.p18_handle_delegation, k8.s9b_client_encoders],
+        "rules": [k2s.p11_command_application, k2s.p12_handler_loop, k4.v2_parse_frame, k4.v6_write_frame_flushes, k3.s9_command_table, k2.p6b_pool_filled, k2.p3_publish_after_append, k2.p18_handle_delegation, k8.s9b_client_encoders, k8.v7_argument_parsers],
         "decides": "one reply per applied command, after the storage call completed, none on error paths, with the prescribed variant and the stored bytes; DEL counts Ok(true); the connection loop is read→parse→apply→reply; Incomplete ⇒ read more; exactly the checked length is consumed on every path and the read buffer is never replaced; every reply is flushed unconditionally; command names matched by full equality",
         "not_decided": "byte-for-byte value equality and segmentation independence as observed behaviour",
     },
@@ -104,7 +104,7 @@ PROPS = {
     },
     "C10": {
         "title": "Hostile or malformed input harms only the connection that sent it",
-        "rules": [k2s.p10_accept_loop, k2s.p12_handler_loop, k1.w4_no_abort, controls.control("W4"), k5.r1_bounded_recursion, controls.control("R1"), k1.w5_permit_ops, k3.s9_command_table, k8.p10b_accept_backoff, k4.v3_read_frame_eof],
+        "rules": [k2s.p10_accept_loop, k2s.p12_handler_loop, k1.w4_no_abort, controls.control("W4"), k5.r1_bounded_recursion, controls.control("R1"), k1.w5_permit_ops, k3.s9_command_table, k8.p10b_accept_backoff, k4.v3_read_frame_eof, k8.v7_argument_parsers],
         "decides": "each connection runs in its own spawned task that owns its Handler (a panic ends one task; the permit returns via Drop); only commands validated by Command::try_from reach set/del, names by full equality; no exit/abort/panic=abort; recursion bounded",
         "not_decided": "that other connections observe correct answers meanwhile",
     },
